@@ -64,6 +64,19 @@ func clean(d []byte) bool {
 	return len(a.Comment) == 0 && len(a.Files) == 1 && a.Files[0].Name == "f" && bytes.Equal(a.Files[0].Data, fixNL(d))
 }
 
+// cleanAmong: the same with a file before and a file after it (a body is stored
+// wherever its file stands in the archive).
+func cleanAmong(d []byte) bool {
+	a := txtar.Parse(txtar.Format(&txtar.Archive{Files: []txtar.File{{Name: "p", Data: []byte("pre\n")}, {Name: "f", Data: d}, {Name: "g", Data: []byte("post\n")}}}))
+	return len(a.Comment) == 0 && len(a.Files) == 3 && a.Files[0].Name == "p" && string(a.Files[0].Data) == "pre\n" &&
+		a.Files[1].Name == "f" && bytes.Equal(a.Files[1].Data, fixNL(d)) && a.Files[2].Name == "g" && string(a.Files[2].Data) == "post\n"
+}
+
+// amongMax: bodies longer than this are not tried between two files (the plain
+// enumeration sets it to one below its bound, where four fifths of the strings
+// are; 0 = no limit).
+var amongMax int
+
 func try(f func()) (pan any) {
 	defer func() { pan = recover() }()
 	f()
@@ -89,6 +102,16 @@ func checkData(d []byte) []kit.V {
 	if p := try(func() { nq = txtar.NeedsQuote(d); cl = clean(d) }); p != nil {
 		add("panic", fmt.Sprintf("NeedsQuote/Parse panics on %q: %v", d, p))
 		return vs
+	}
+	if cl && (amongMax == 0 || len(d) <= amongMax) {
+		among := false
+		if p := try(func() { among = cleanAmong(d) }); p != nil {
+			add("panic", fmt.Sprintf("Format/Parse panic on an archive holding %q between two files: %v", d, p))
+			return vs
+		}
+		if !among {
+			add("body-changes-archive-between-files", fmt.Sprintf("the body %q survives Format/Parse as the only file, but not with a file before and a file after it", d))
+		}
 	}
 	if nq == cl {
 		if nq {
@@ -212,6 +235,7 @@ func main() {
 	alpha := enum.Bytes("-", " ", "a", ">", "\n", "\r", "\xff")
 	var evals, nontrivial, needs, quoted int64
 	var stop int32
+	amongMax = maxLen - 1
 	enum.Strings(alpha, maxLen, r.Workers(), func(w int, s []byte) {
 		if atomic.LoadInt32(&stop) != 0 {
 			return
@@ -254,6 +278,7 @@ func main() {
 		tokLen = 7
 	}
 	var tokEvals int64
+	amongMax = 0
 	enum.Strings(tokAlpha, tokLen, r.Workers(), func(w int, s []byte) {
 		atomic.AddInt64(&tokEvals, 1)
 		r.Watch(w, s)
